@@ -515,6 +515,12 @@ func setHeadersForms(c *Ctx, li *LockInfo, r *Report, rule string) map[string]st
 				if mu, ok := in.(*ssa.MapUpdate); ok {
 					if _, isSl := mu.Value.Type().Underlying().(*types.Slice); isSl {
 						form = "whole"
+						// the very slice of the source map (range value) is stored: both maps now share one backing array
+						if e, isE := mu.Value.(*ssa.Extract); isE {
+							if _, isNext := e.Tuple.(*ssa.Next); isNext {
+								form = "alias"
+							}
+						}
 					}
 				}
 			})
@@ -527,6 +533,8 @@ func setHeadersForms(c *Ctx, li *LockInfo, r *Report, rule string) map[string]st
 		switch form {
 		case "add", "whole":
 			r.Ok(rule, key, c.Pos(f.Pos()), "values are appended (Add) or assigned as a whole; no per-value Set")
+		case "alias":
+			r.Fail(rule, key, c.Pos(f.Pos()), "the source map's value slices are stored into the response header map without copying: the response and the stored entry (and every concurrent response built from it) share one backing array, so the AddHeader calls that follow append into the stored entry's headers — a data race between concurrent hits and headers of one response leaking into another")
 		case "set-per-value":
 			r.Fail(rule, key, c.Pos(f.Pos()), "each value of a field is written with Set/SetHeader, which overwrites the previous one: of several Set-Cookie / Link / Vary values only the last reaches the client")
 		default:
